@@ -108,7 +108,7 @@ class DM14Server:
         :param int timestamp: timestamp of the message
         :param bytearray data: data of the PDU
         """
-        if pgn != j1939.ParameterGroupNumber.PGN.DM14:
+        if pgn != j1939.ParameterGroupNumber.PGN.DM14 or len(data) != 8:
             return
         if (
             (self.sa is not None and sa != self.sa)
